@@ -114,7 +114,6 @@ where
         ..
     } = opened_values_targets;
 
-    let degree = 1 << degree_bits;
     let lookup_gadget = LogUpGadget {};
     let preprocessed_width = opt_opened_preprocessed_local_targets
         .as_ref()
@@ -142,6 +141,17 @@ where
     let quotient_degree = 1 << (log_quotient_degree + config.is_zk());
 
     let pcs = config.pcs();
+    // The trace domain and the quotient domain built on it must exist in the two-adic group the
+    // PCS works in; `degree_bits` is prover-supplied and the domain constructors panic otherwise.
+    if degree_bits
+        .checked_add(log_quotient_degree + config.is_zk())
+        .is_none_or(|b| b > pcs.log_max_lde_height())
+    {
+        return Err(VerificationError::InvalidProofShape(format!(
+            "degree_bits {degree_bits} is out of range for the PCS"
+        )));
+    }
+    let degree = 1 << degree_bits;
     let trace_domain = pcs.natural_domain_for_degree(degree);
     let init_trace_domain = pcs.natural_domain_for_degree(degree >> (config.is_zk()));
 
